@@ -54,7 +54,7 @@ package builder
 //@ requires b != nil && wfBuilder(b.vnode)
 //@ requires forall k string :: has(b.vnode.idsymtabl, k) ==> b.vnode.idsymtabl[k] != nil
 //@ emits [C06,C08] "const ERROR_ACTION = %d" arg1 == len(b.vnode.G.LR0.LR0Closure) + 100
-//@ emits [C06,C08] "const ACCEPT_ACTION = %d" assert true
+//@ emits [C06,C08] "const ERROR_ACTION = %d" arg2 == len(b.vnode.G.LR0.LR0Closure) + 200
 //@ emits [C11] "const %s = %d" arg1 == identifier.Name
 //@ emits [C11] "const %s = %d" arg2 == identifier.Value
 //@ emits [C11] "const %s = %d" assert identifier.IDTyp == parser.TERMID
